@@ -4,7 +4,7 @@ package x25519
 
 import "github.com/oasisprotocol/curve25519-voi/internal/verif"
 
-//verif:ob prop=C08 name=ct_x25519 mode=bv tags=purego ct=1 use=montabs
+//verif:ob prop=C08,C18 name=ct_x25519 mode=bv tags=purego ct=1 use=montabs sharedro=1
 func vh_C08_x25519() {
 	verif.Secret("k")
 	var k, u, dst [32]byte
